@@ -95,3 +95,16 @@ def declare(reg):
         {"name": "quoted-strings-decoded", "module": "harness.parser", "func": "QuotedStrings"})
     reg.properties.setdefault("C08", {}).setdefault("bounded", []).append(
         {"name": "fetch-attributes-decoded", "module": "harness.parser", "func": "FetchAtts"})
+
+    # ---- is_seq_num (C08, C15): a sequence number token is decoded to exactly its value, '*' stays '*', and nothing is ever raised ----
+    reg.contract(
+        P, "IMAPClientCommand.is_seq_num", params={"self": "ref:IMAPClientCommand", "val": "str"}, ret="opt[IntOrStar]",
+        ensures={
+            "numeral-is-its-value": "implies(is_numeral(val), not is_none(result) and isinstance(some(result), int) and int_of(some(result)) == int(val))",
+            "star-stays": "implies(val == '*', not is_none(result) and isinstance(some(result), str) and str_of(some(result)) == '*')",
+            "anything-else-is-none": "implies(not is_numeral(val) and val != '*', is_none(result))",
+        },
+        raises={},  # in particular not the builtin SyntaxError of its unreachable branch: the callers only catch BadCommand
+        props=["C08", "C15"],
+        ghost={"harness": "harness.parser:Totality"},
+    )
